@@ -235,6 +235,7 @@ CHECKS["C07"] = {
     "jobs": [
         {"pkg": SERVER, "run": "^TestVerif_C07_Flips$", "timeout": {"quick": 600}},
         {"pkg": SERVER, "run": "^TestVerif_C07_Forged$"},
+        {"pkg": SERVER, "run": "^TestVerif_C07_ConfigUIDs$", "checks": {"quick": 60, "thorough": 3000}, "shards": {"thorough": 4}},
         {"pkg": SERVER, "run": "^TestVerif_C07_Edits$", "checks": {"quick": 3000, "thorough": 400000}, "shards": {"thorough": 16}},
         {"pkg": SERVER, "run": "^TestVerif_C07_Window$", "timeout": {"quick": 600}},
         {"pkg": SERVER, "run": "^TestVerif_C07_Outcome$", "checks": {"quick": 500, "thorough": 30000}, "shards": {"thorough": 16}, "timeout": {"quick": 600}},
